@@ -643,7 +643,7 @@ func (r *run) call(s *State, c *ast.CallExpr) []outcome {
 			if a[0].K == "sp" {
 				key = a[0].A
 			}
-			s.event("setMemo", c.Pos(), key, in.exprText(c.Args[1]), a[2].String())
+			s.eventV("setMemo", c.Pos(), []Val{a[0], a[2]}, key, in.exprText(c.Args[1]), a[2].String())
 		} else {
 			s.undecided("setMemoized with %d arguments", len(a))
 		}
